@@ -379,12 +379,12 @@ func (e *Executor) executeTarget(
 	}
 
 	if isTainted {
-		go func() {
-			err = e.taintCache.Clear(ctx, target.Label)
-			if err != nil {
-				logger.Errorf("Failed to remove taint from target %s: %v", target.Label, err)
-			}
-		}()
+		// Remove the taint before the target is reported as done: nothing waits for a
+		// detached goroutine once the build returns, so the taint could outlive the
+		// successful execution that is supposed to consume it.
+		if clearErr := e.taintCache.Clear(ctx, target.Label); clearErr != nil {
+			logger.Errorf("Failed to remove taint from target %s: %v", target.Label, clearErr)
+		}
 	}
 
 	return dag.CacheMiss, nil
